@@ -340,6 +340,9 @@ class Interp:
                 raise
         elif isinstance(s, ast.Pass):
             pass
+        elif isinstance(s, ast.AugAssign) and isinstance(s.target, ast.Name):
+            env[s.target.id] = self.ev(ast.BinOp(left=ast.Name(id=s.target.id, ctx=ast.Load(), lineno=s.lineno, col_offset=0),
+                                                 op=s.op, right=s.value, lineno=s.lineno, col_offset=0), env)
         else:
             raise Unsupported("statement %s in database.py at %d" % (type(s).__name__, s.lineno))
 
@@ -373,8 +376,13 @@ class Interp:
             # comparing a non-number (e.g. None from an empty version table): Python 3 raises TypeError
             raise PyExc("TypeError", "'<' not supported between %r and %r" % (a, b))
         if isinstance(e, ast.BoolOp):
-            vals = [self.ev(x, env) for x in e.values]
-            return all(vals) if isinstance(e.op, ast.And) else any(vals)
+            # short-circuit, and the value of the deciding operand, as in Python
+            v = None
+            for x in e.values:
+                v = self.ev(x, env)
+                if (not v) if isinstance(e.op, ast.And) else bool(v):
+                    return v
+            return v
         if isinstance(e, ast.UnaryOp) and isinstance(e.op, ast.Not):
             return not self.ev(e.operand, env)
         if isinstance(e, ast.BinOp):
@@ -412,6 +420,12 @@ class Interp:
         kw = {k.arg: self.ev(k.value, env) for k in e.keywords}
         if fn == "os.path.exists":
             return self.os_path_exists(args[0])
+        if fn == "os.path.getsize":
+            st = self.w.get(args[0])
+            if st.kind == "absent":
+                raise PyExc("FileNotFoundError")
+            # an empty file is the class 'database without any table'; everything else has bytes
+            return 0 if (st.kind == "db" and not st.schema and st.version is None) or getattr(st, "empty", False) else 1
         if fn == "os.path.basename":
             return Path("basename", args[0])
         if fn == "os.path.dirname":
